@@ -95,6 +95,11 @@ FIXED += [
       "expected": "PROGRAM p\nx = '(a+b)' // (a + b)\ny = \"'a b'\" // 'a b'\nz = ((c)) + (c)\nEND PROGRAM p"}),
 ]
 
+FIXED += [
+    ("C04", "layout-rejected", "e8f7ea4", "'integer(4)x' / 'class(t(4,*))x': no blank between the type-spec's closing parenthesis and the first entity (e.g. lines joined by '&' ... '&') was rejected",
+     c04(wrap("  class  &\n  (  &\n  t(4, *))&\n  &vf_a\n  integer(4)k"), wrap("  class(t(4, *)) vf_a\n  integer(4) k"))),
+]
+
 OPEN = [
     ("C03", "defined-binary-op-with-dotted-right", "a defined binary operator with a dotted operator or logical literal to its right at the same parenthesis level is not parsed (Expr.match splits at the right-most .word. and gives up if that one is intrinsic)",
      {"mode": "expr", "text": "a .x. b .and. c", "expected": "(a.x.(b.and.c))", "context": "expr", "known": True}),
